@@ -1261,6 +1261,21 @@ class Engine:
                 for a in call_args(strip(s)):
                     self.visit(a, st)
             return flows
+        s0_ = strip(s)
+        if s0_.get('kind') == 'BinaryOperator' and s0_.get('opcode') == '=' and strip(kids(s0_)[1]).get('kind') == 'ConditionalOperator' \
+                and not fe.is_float_type(strip(kids(s0_)[0])) and '*' not in fe.qual(strip(kids(s0_)[0])):
+            #  lhs = c ? a : b   on integers: one state per arm (same treatment as the initialiser form above)
+            c_, a_, b_ = kids(strip(kids(s0_)[1]))
+            out = []
+            for st in states:
+                for s2, pol in self.split(c_, st):
+                    arm = a_ if pol else b_
+                    synth = dict(s0_)
+                    synth['inner'] = [kids(s0_)[0], arm]
+                    self.visit(synth, s2)
+                    out.append(s2)
+            flows['norm'] = self.merge(out)
+            return flows
         for st in states:
             self.visit(s, st)
         flows['norm'] = states
